@@ -7,8 +7,10 @@ import (
 	"strings"
 
 	"github.com/opsidian/parsley/ast"
+	"github.com/opsidian/parsley/combinator"
 	"github.com/opsidian/parsley/parsley"
 	"github.com/opsidian/parsley/text"
+	"github.com/opsidian/parsley/text/terminal"
 	sim "github.com/opsidian/parsley/zzsimrt"
 )
 
@@ -32,6 +34,7 @@ type c14Task struct {
 	Eval        bool       `json:"eval,omitempty"`
 	Prefix      []string   `json:"prefix,omitempty"` // files added to the file set first
 	Huge        int        `json:"huge,omitempty"`   // length of a content-less file added first (large global positions)
+	Frags       []string   `json:"frags,omitempty"`  // literals for which this task constructs Memoize(Op(lit)) fragments first (cooperative construction)
 	StaticCheck bool       `json:"static_check,omitempty"`
 }
 
@@ -137,6 +140,13 @@ func (*c14Prop) Gen(r *Rand, pl *Plan) Case {
 		}
 		for k := r.Intn(3); k > 0 && r.Chance(1, 3); k-- {
 			t.Prefix = append(t.Prefix, strings.Repeat("x", r.Intn(9)))
+		}
+		if r.Chance(1, 3) {
+			// cooperative construction: fragments built by different tasks at the same time
+			// are assembled into ONE grammar afterwards
+			for k := r.Range(1, 3); k > 0; k-- {
+				t.Frags = append(t.Frags, fmt.Sprintf("k%d_%d;", i, k))
+			}
 		}
 		c.Tasks = append(c.Tasks, t)
 	}
@@ -316,8 +326,9 @@ func strictRoot(name string) bool {
 	return false
 }
 
-func (*c14Prop) Run(cc Case) Verdict {
-	c := cc.(*c14Case)
+func (*c14Prop) Run(cc Case) Verdict { return c14Run(cc.(*c14Case), true) }
+
+func c14Run(c *c14Case, probeSequential bool) Verdict {
 	v := Verdict{Probes: map[string]int64{}, Faults: map[string]int64{}}
 	sim.SetMapSeed(c.MapSeed, c.MapIdentity)
 	if !c.MapIdentity {
@@ -332,8 +343,12 @@ func (*c14Prop) Run(cc Case) Verdict {
 	obs := make([]string, n+1)
 	raws := make([]interface{}, n+1)
 	owned := make([]parsley.Parser, n+1)
+	frags := make([][]parsley.Parser, n+1)
 	info := runTasks(n, c.Sched, func(id int64) {
 		t := &c.Tasks[id-1]
+		for _, lit := range t.Frags {
+			frags[id] = append(frags[id], combinator.Memoize(terminal.Op(lit)))
+		}
 		p := shared[t.Graph]
 		if t.Construct {
 			p = t.Own.construct()
@@ -360,6 +375,28 @@ func (*c14Prop) Run(cc Case) Verdict {
 		return v
 	}
 	if info.OverBudget {
+		// Bounded liveness. Without locks the number of statements the tasks execute does
+		// not depend on the interleaving, so if the same case finishes quickly when the
+		// tasks run one after the other (no preemption, no abort), an interleaved run that
+		// exhausts a step budget 8x larger means concurrent use does not make progress.
+		// Only judged under the fair policies (uniform random, sticky random, round robin):
+		// under PCT / k-preemption / stall a correct hand-rolled spin lock may starve by
+		// design of the schedule, which is not the library's fault.
+		fair := c.Sched.Policy == sim.PolRandom || c.Sched.Policy == sim.PolSticky || c.Sched.Policy == sim.PolRR
+		if probeSequential && fair {
+			b, _ := json.Marshal(c)
+			seq := &c14Case{}
+			if json.Unmarshal(b, seq) == nil {
+				seq.Sched = &SchedSpec{StepCap: c.Sched.StepCap, HasExpl: true}
+				v2 := c14Run(seq, false)
+				v.Probes["sequential_reruns_after_budget"]++
+				if v2.Discard == "" && !v2.Violation && v2.Steps > 0 && v2.Steps*8 <= c.Sched.StepCap {
+					v.Violation, v.Class = true, "livelock"
+					v.Detail = fmt.Sprintf("the tasks did not finish within %d steps under this interleaving although the same tasks need only %d steps when run one after the other: concurrent use does not make progress", c.Sched.StepCap, v2.Steps)
+					return v
+				}
+			}
+		}
 		v.Discard = "budget"
 		return v
 	}
@@ -400,6 +437,39 @@ func (*c14Prop) Run(cc Case) Verdict {
 			}
 		}
 		v.Probes["result_objects_compared"] += int64(len(parts[i]))
+	}
+	// (7) cooperative construction: the memoised fragments the tasks constructed at the same
+	// time, assembled into one grammar, behave like the same fragments constructed one after
+	// the other (parser identities must be distinct)
+	var lits []string
+	var coop, seq []parsley.Parser
+	for i := 1; i <= n; i++ {
+		if info.Ends[i].Aborted != 0 || len(frags[i]) != len(c.Tasks[i-1].Frags) {
+			continue
+		}
+		for j, lit := range c.Tasks[i-1].Frags {
+			lits = append(lits, lit)
+			coop = append(coop, frags[i][j])
+			seq = append(seq, combinator.Memoize(terminal.Op(lit)))
+		}
+	}
+	if len(lits) >= 2 {
+		v.Probes["cooperatively_built_grammars"]++
+		for _, mk := range []func(...parsley.Parser) parsley.Parser{
+			func(ps ...parsley.Parser) parsley.Parser { return combinator.Choice(ps...) },
+			func(ps ...parsley.Parser) parsley.Parser { return combinator.Any(ps...) },
+		} {
+			gc, gs := combinator.Sentence(combinator.Many(mk(coop...))), combinator.Sentence(combinator.Many(mk(seq...)))
+			for k, lit := range lits {
+				t := &c14Task{Input: lit + lits[(k+1)%len(lits)]}
+				a, b := soloObserve(t, gc), soloObserve(t, gs)
+				if a != b {
+					v.Violation, v.Class = true, "diverge:construction"
+					v.Detail = fmt.Sprintf("a grammar assembled from %d memoised fragments that %d tasks constructed at the same time parses %q differently from the same grammar constructed sequentially\n  concurrently built: %s\n  sequentially built: %s", len(lits), n, t.Input, clip(a), clip(b))
+					return v
+				}
+			}
+		}
 	}
 	// (1) solo differential on twin graphs built after the concurrent phase, then on the
 	// very same shared graph
@@ -558,6 +628,11 @@ func (*c14Prop) Shrink(cc Case) []Case {
 		if t.Huge > 0 {
 			k := clone()
 			k.Tasks[i].Huge = 0
+			out = append(out, k)
+		}
+		if len(t.Frags) > 0 {
+			k := clone()
+			k.Tasks[i].Frags = t.Frags[:len(t.Frags)-1]
 			out = append(out, k)
 		}
 		if t.StaticCheck {
